@@ -158,13 +158,21 @@ def half_life(run, F):
                loc(W), 'life <- %s' % mids)
         # which branch moves which end
         t = dtree.table(W['ch'][1], {})
+        # the rows partition on the sign of corr - 0.5: select the row each region falls in
         mv = {}
-        for cs, l, ef in t:
-            key = tuple(sorted(c for c in cs if 'corr' in c))
-            mv[key] = [e for e in ef if e.startswith(('n =', 'last_n ='))]
-        okm = mv.get(('(corr < 0.5)',)) == ['last_n = last_n', 'n = life'] and \
-            mv.get(('!(corr < 0.5)', '(0.5 < corr)')) == ['last_n = life', 'n = n'] and \
-            mv.get(('!(0.5 < corr)', '!(corr < 0.5)')) == ['n = life']
+        for region, val in (('below', 0.25), ('at', 0.5), ('above', 0.75)):
+            for cs, l, ef in t:
+                cc = [c for c in cs if 'corr' in c]
+                try:
+                    hit = all(eval(c, {'__builtins__': {}}, {'corr': val}) for c in cc)
+                except Exception:
+                    hit = False
+                if hit:
+                    mv.setdefault(region, []).append(
+                        sorted(e for e in ef if e.startswith(('n =', 'last_n =')) and
+                               e not in ('n = n', 'last_n = last_n')))
+        okm = mv.get('below') == [['n = life']] and mv.get('above') == [['last_n = life']] and \
+            mv.get('at') == [['n = life']]
         run.ob('HL.bracket', fn, 'below 0.5 lowers the upper end, above raises the lower end', okm,
                loc(W), str(mv))
     s = src(fn.hir)
